@@ -379,11 +379,27 @@ def comp_next_fallthrough(F):
     fn = F.one_fn(name="next", self_adt="ComponentSubIterator")
     r.analysed.append(fn["path"])
 
+    def advances(x):
+        """moves on to the next module: `next_module()` or a write of curr_mod (its body, inlined)"""
+        return any((y.get("k") == "MethodCall" and y["method"] == "next_module") or
+                   (y.get("k") in ("Assign", "AssignOp") and "curr_mod" in (place_path(y["lhs"]) or "")) for y in walk(x))
+
     def G(e):
         e = peel(e)
         k = e.get("k")
         if k == "Block":
-            if e.get("expr") is not None and not any(s_.get("k") == "Ret" for s_ in walk(e.get("stmts") or [])):
+            # statement by statement: an early `return v` is fine when v is `true` (something was visited) or the module was
+            # advanced before; once the module has been advanced the rest of the block is the next-module logic
+            for st in e.get("stmts") or []:
+                body_ = st.get("e") if st.get("k") in ("Semi", "Expr") else (st.get("init") if st.get("k") == "Let" else None)
+                for rt in walk(body_ or {}):
+                    if rt.get("k") == "Ret":
+                        v = peel(rt.get("e") or {})
+                        if not (v.get("k") == "Lit" and v.get("lit") == "Bool(true)") and not (rt.get("e") is not None and G(rt["e"])):
+                            return False
+                if body_ is not None and advances(body_):
+                    return True
+            if e.get("expr") is not None:
                 return G(e["expr"])
             return False
         if k == "Lit":
